@@ -37,23 +37,23 @@ type vActorSpec struct {
 }
 
 type vScenario struct {
-	ID       string        `json:"id"`
-	Seed     int64         `json:"seed"`
-	Strategy string        `json:"strategy"` // random | pct | plan
-	Plan     []string      `json:"plan"`
-	Kind     string        `json:"kind"` // server | client | fd
-	OnConn   bool          `json:"onconnect"`
-	OnDisc   bool          `json:"ondisconnect"`
-	OnReq    bool          `json:"onrequest"`
-	OnPrep   bool          `json:"onprepare"`
-	NCloseCb int           `json:"nclosecb"`
-	ConnBody string        `json:"connbody"` // return | close | yield
-	PrepBody string        `json:"prepbody"` // return | close
-	Handler  []vHandlerStep `json:"handler"`
-	Actors   []vActorSpec  `json:"actors"`
+	ID       string          `json:"id"`
+	Seed     int64           `json:"seed"`
+	Strategy string          `json:"strategy"` // random | pct | plan
+	Plan     []string        `json:"plan"`
+	Kind     string          `json:"kind"` // server | client | fd
+	OnConn   bool            `json:"onconnect"`
+	OnDisc   bool            `json:"ondisconnect"`
+	OnReq    bool            `json:"onrequest"`
+	OnPrep   bool            `json:"onprepare"`
+	NCloseCb int             `json:"nclosecb"`
+	ConnBody string          `json:"connbody"` // return | close | yield
+	PrepBody string          `json:"prepbody"` // return | close
+	Handler  []vHandlerStep  `json:"handler"`
+	Actors   []vActorSpec    `json:"actors"`
 	Peer     [][]interface{} `json:"peer"` // ["send",n] ["close"] ["rst"] ["drain",n] ["shutwr"]
-	SndBuf   int           `json:"sndbuf"`
-	LateReq  bool          `json:"latereq"` // client: SetOnRequest is an actor op instead of an option
+	SndBuf   int             `json:"sndbuf"`
+	LateReq  bool            `json:"latereq"` // client: SetOnRequest is an actor op instead of an option
 }
 
 type vOutEvent struct {
@@ -102,21 +102,21 @@ func vStreamByte(p int) byte {
 }
 
 type vConnRun struct {
-	sc      *vScenario
-	s       *vSched
-	mp      *vManualPoll
-	c       *connection
-	peer    int
-	out     []vOutEvent
-	sent    int // bytes the peer wrote
-	rdpos   int // bytes consumed by reads so far (expected stream position)
-	wrpos   int // bytes submitted by writes
-	prd     int // bytes the peer read
-	reqN    int
-	panicked string
+	sc         *vScenario
+	s          *vSched
+	mp         *vManualPoll
+	c          *connection
+	peer       int
+	out        []vOutEvent
+	sent       int // bytes the peer wrote
+	rdpos      int // bytes consumed by reads so far (expected stream position)
+	wrpos      int // bytes submitted by writes
+	prd        int // bytes the peer read
+	reqN       int
+	panicked   string
 	userClosed bool
 	inUntil    bool
-	mu       sync.Mutex
+	mu         sync.Mutex
 }
 
 func (r *vConnRun) ev(e, k string, n, m int, err string) {
